@@ -581,8 +581,8 @@ class Side:
 			for _ in range(rng.choice([1, 1, 2])):
 				source = rng.randrange(len(items))
 				position = rng.randrange(len(items) + 1)
-				items.insert(position, items[source if source < position else source])
-				expected.insert(position, expected[source if source < position else source])
+				items.insert(position, items[source])
+				expected.insert(position, expected[source])
 			repeated = True
 		label = 'array:' + ('empty' if not items else 'one' if 1 == len(items) else 'many') + (':keyed' if kind['sortKey'] else '') + (':repeated-elements' if repeated else '')
 		return w_list(items), expected, label
@@ -1043,7 +1043,9 @@ class Side:
 			names = [member[0].lower() for member in flag_type['members'] if member[1] > 0]
 			good = rng.choice(names)
 			other = rng.choice(names)
-			candidates = [f'{good} foo', f'{good}  {other}', good.upper(), f'{good} ', f' {good}', '', f'{good},{other}', f'{good} {other}x', good[:-1], f'{good} NONE']
+			candidates = [
+				f'{good} foo', f'{good}  {other}', good.upper(), f'{good} ', f' {good}', '', f'{good},{other}', f'{good} {other}x', good[:-1], f'{good} NONE',
+				f'{good} {good.upper()}', f'{good} {good.capitalize()}', f'{good}\t{other}', f'{good} {good}  {good}', f'{good}\n']
 			bad = rng.choice(candidates)
 			result.append(('unknown-flag-name', with_pair(codec.fix_name(field['name']), w_str(bad)), f'{field["name"]}={bad!r}'))
 			mask = 0
